@@ -119,11 +119,14 @@ def run_case(case):
     inside = [x for x in cuts if x not in bounds]
     coalesced = len(bounds - set(cuts)) > 1 or (len(bounds) > 1 and not cuts)
     where = 'split' if inside else ('coalesced' if coalesced else 'aligned')
-    for ch in ('indications', 'wire', 'final', 'loop_exc', 'wire_rem'):
+    # 'progress': after every turn of the peer (completely delivered, everything quiet) the same
+    # number of indications and of answers exists as with one PDU per segment - a delivery must
+    # not leave received PDUs waiting for bytes that are not part of them
+    for ch in ('indications', 'wire', 'final', 'loop_exc', 'wire_rem', 'progress'):
         if obs[ch] != base[ch]:
             kinds_b = base.get('ind_kinds') if ch == 'indications' else base.get('wire_kinds')
             kinds_o = obs.get('ind_kinds') if ch == 'indications' else obs.get('wire_kinds')
-            if ch in ('final', 'loop_exc', 'wire_rem'):
+            if ch in ('final', 'loop_exc', 'wire_rem', 'progress'):
                 kinds_b, kinds_o = base[ch], obs[ch]
             viol.append({'sig': 'C03 differs-from-one-pdu-per-segment channel=%s convo=%s delivery=%s'
                                 % (ch, case['convo'], where),
